@@ -7,6 +7,8 @@
  R7.3 a column keeps one role: assigning a role erases the identifier from every role list first; deleting a column erases
       it from every role list
  R7.4 every designator container parameter of a public method is used through its elements, not only its size
+ R7.5 the file-static scratch buffers of the Db sources are refilled before every read (no value carried over from the
+      previous call / another Db); file-static hidden arguments are assigned before the calls that read them
 """
 import os
 import subprocess
@@ -272,4 +274,8 @@ def main(tier):
     r7_2(prog, chk)
     r7_3(prog, chk)
     r7_4(prog, chk)
+    # R7.5 no state carried from one call to the next through file-statics of the Db sources
+    import c10
+    c10.scratch_static_rule(prog, chk, ["src/Db/Db.cpp"], "R7.5", 1)
+    c10.hidden_static_rule(prog, chk, "src/Db/DbHelper.cpp", "R7.5h", 1)
     return chk.finish()
